@@ -126,7 +126,7 @@ struct C18 : Property
 		{
 			Op o;
 			o.kind = "seedrace";
-			o.a = {(int64_t)r.below(3)}; // how many leading seed-source answers are the forbidden -1
+			o.a = {(int64_t)r.below(9)}; // %3: how many leading seed-source answers are the forbidden -1
 			p.ops.push_back(o);
 		}
 		return p;
@@ -482,10 +482,11 @@ struct C18 : Property
 		else
 		{
 			s.minus_one_left = (int)(p.ops.empty() ? 0 : p.ops[0].arg(0) % 3);
+			bool zero_candidate = !p.ops.empty() && (p.ops[0].arg(0) / 3) % 3 == 1; // the first acceptable candidate is 0: an ordinary seed value
 			// different candidate for every caller; some answers are the forbidden value -1
 			g_seed.queue.clear();
 			for (int i = 0; i < 16; i++)
-				g_seed.queue.push_back(i < s.minus_one_left ? 0xffffffffu : (uint32_t)(0x1000 + 7919 * i));
+				g_seed.queue.push_back(i < s.minus_one_left ? 0xffffffffu : (i == s.minus_one_left && zero_candidate) ? 0u : (uint32_t)(0x1000 + 7919 * i));
 			g_seed.pos = 0;
 			g_seed.yield_hook = seed_yield_hook;
 			if (s.minus_one_left)
